@@ -85,7 +85,7 @@ def _gen(seed, k, nst, nsol, vel, tri, expo, zero='dense'):
 
 def _nsubsets(f):
     n = f['gen']['nst']
-    return (2 ** n - 1) if f['subsets'] == 'all' else int(f['subsets'])
+    return (2 ** n - 1) if f['subsets'] == 'all' else (2 if f['subsets'] == 'none-and-first' else int(f['subsets']))
 
 
 def _nedits(f):
@@ -116,6 +116,14 @@ def plan(tier, seed):
         for i in range(24):      # sub-network covariances: exact zeros for the zero-line removal
             add(2 + (i + seed) % 9, 1 + i % 3, i % 3 == 0, 'LU'[i % 2], 'e' if i % 4 else 'E', 1,
                 zero='groups' if (i // 2) % 2 == 0 else 'sparse')
+        for i in range(12):      # the same kind of solution with its all-zero records left out, after larger dense ones
+            add(2 + (i + seed) % 6, 1 + i % 2, True, 'LU'[i % 2], 'e', 1, zero='groups', velocity=True)
+            files[-1]['gen']['omit_zero_lines'] = True
+        for L in range(1, 82):   # record-boundary alignment sweep: every offset of the matrix records modulo their length,
+            for tri_ in 'LU':    # for both triangles (their short records fall in different places)
+                add(12, 1, True, tri_, 'e', 'none-and-first', velocity=(L % 9 == 0), zeros=False)
+                files[-1]['gen'].update({'cpad': L, 'lay': 'std', 'eol': 'lf', 'cstyle': 'star'})     # one layout for the whole sweep
+                files[-1]['readers'] = (L % 9 == 0)
     else:
         k = 0
         for rep in range(3):
@@ -134,6 +142,12 @@ def plan(tier, seed):
         for i in range(360):
             add(2 + (i + seed) % 10, 1 + i % 3, i % 3 == 0, 'LU'[i % 2], 'e' if i % 4 else 'E', 2,
                 zero='groups' if (i // 2) % 2 == 0 else 'sparse')
+            if i % 3 == 1:
+                files[-1]['gen']['omit_zero_lines'] = True
+        for nst_, nsol_ in ((12, 1), (12, 2), (11, 2)):
+            for L in range(1, 82):
+                add(nst_, nsol_, True, 'LU'[L % 2], 'e', 'none-and-first', velocity=(L % 5 == 0), zeros=(L % 7 == 0))
+                files[-1]['gen'].update({'cpad': L, 'lay': 'std', 'eol': 'lf', 'cstyle': 'star'})
     # clock offsets: consecutive edits walk through the enumerated clock configurations
     off = seed * 13
     for f in files:
@@ -712,6 +726,12 @@ def subsets_of(f, m, rnd):
                 if len(c) > 1 and rnd.random() < 0.5:
                     rnd.shuffle(c)          # the removal list need not be in file order
                 yield c
+        return
+    if f['subsets'] == 'none-and-first':
+        # nothing removed (every record of the input has to come through) and the first station removed
+        yield []
+        if n > 1:
+            yield [codes[0]]
         return
     for j in range(int(f['subsets'])):
         if n == 1:
